@@ -165,7 +165,7 @@ func forceGroups(t *rapid.T, ty *desc.T) {
 	for g := 1; g <= n; g++ {
 		kind := rapid.SampledFrom([]string{"either", "botheq"}).Draw(t, "groupKind")
 		want := kindKey(ty.Fields[scal[rapid.IntRange(0, len(scal)-1).Draw(t, "kindOf")]].T)
-		id := rapid.IntRange(1, 2).Draw(t, "groupID") // ids may coincide across kinds
+		id := rapid.SampledFrom([]string{"1", "2", "1", "2", "01", "+1", "1.0", "x"}).Draw(t, "groupID") // ids are TEXT: 1, 01 and +1 name three groups
 		for _, i := range scal {
 			f := &ty.Fields[i]
 			if kindKey(f.T) != want || rapid.IntRange(0, 3).Draw(t, "member") == 0 {
@@ -174,7 +174,7 @@ func forceGroups(t *rapid.T, ty *desc.T) {
 			if f.Tags == nil {
 				f.Tags = map[string]string{}
 			}
-			item := fmt.Sprintf("%s=%d", kind, id)
+			item := fmt.Sprintf("%s=%s", kind, id)
 			if strings.Contains(","+f.Tags["valid"]+",", ","+item+",") {
 				continue
 			}
@@ -202,9 +202,9 @@ func genGroupMapCase(t *rapid.T) *GroupMapCase {
 	for g := 1; g <= n; g++ {
 		kind := rapid.SampledFrom([]string{"either", "botheq"}).Draw(t, "groupKind")
 		k := rapid.IntRange(1, 4).Draw(t, "nMembers")
-		id := rapid.IntRange(1, 2).Draw(t, "groupID") // ids may coincide across kinds
+		id := rapid.SampledFrom([]string{"1", "2", "1", "2", "01", "+1", "x"}).Draw(t, "groupID") // ids are text
 		for _, key := range rapid.Permutation(keys).Draw(t, "members")[:k] {
-			item := fmt.Sprintf("%s=%d", kind, id)
+			item := fmt.Sprintf("%s=%s", kind, id)
 			if strings.Contains(","+c.Rules[key]+",", ","+item+",") {
 				continue
 			}
